@@ -2,6 +2,7 @@
 (* Link.tla with the label of the last action as a variable: source of the event  *)
 (* sequences that the harness plays against the real gateways (tlc -simulate).    *)
 EXTENDS Link
+CONSTANT Focus      \* "all" | "watchdog" (probe / answer latency patterns on an established TCP link)
 VARIABLE act
 gvars == <<vars, act>>
 GInit == Init /\ act = [a |-> "Init", d |-> 0, ok |-> FALSE]
@@ -17,11 +18,15 @@ Env == \/ (Start /\ L("Start", 0, FALSE))
        \/ (PeerClose /\ L("PeerClose", 0, FALSE))
        \/ (Answer /\ L("Answer", 0, FALSE))
        \/ (Stop /\ L("Stop", 0, FALSE))
-       \/ (\E d \in {1, 2, R - 1, R, R + 1, 2 * R + 1} : Tick(d) /\ L("Tick", d, FALSE))
+       \/ (\E d \in {1, 2, 3, R - 1, R, R + 1, R + 2, R + 3, 2 * R + 1, 2 * R + 3} : Tick(d) /\ L("Tick", d, FALSE))
+\* probe-answer latency patterns: only small and near-R ticks and answers while the link is up
+EnvW == \/ (Answer /\ L("Answer", 0, FALSE))
+        \/ (\E d \in {1, 2, 3, 4, R - 2, R, R + 1, R + 2, R + 3} : Tick(d) /\ L("Tick", d, FALSE))
 NotStarted == attempts = <<>> /\ loop = "idle" /\ ~stopped
 GNext == IF NotStarted THEN (Start /\ L("Start", 0, FALSE))
          ELSE IF Urgent THEN Sys
-         ELSE IF stopped THEN (\E d \in {1, R + 1, 2 * R + 1} : Tick(d) /\ L("Tick", d, FALSE))
+         ELSE IF stopped THEN (\E d \in {1, R + 1, 2 * R + 3} : Tick(d) /\ L("Tick", d, FALSE))
+         ELSE IF Focus = "watchdog" /\ live # 0 THEN EnvW
          ELSE Env
 GSpec == GInit /\ [][GNext]_gvars
 =============================================================================
